@@ -4,7 +4,7 @@ from ..monitors_m import C04Mon
 
 WIT = ["order_with_ttl", "fill_in_last_step_of_ttl", "cancel_of_partially_filled", "cancel_of_filled", "cancel_of_resting", "cancel_of_cancelled", "cancel_of_expired", "expiry", "expiry_of_partially_filled", "expiry_of_market_order"]
 RULE = ("every operation history over the alphabet (clock step, clock set several steps ahead in one call, limit/market submissions with and without time-to-live, "
-        "cancels of live and dead orders, matching round, running switch) up to the stated depth from the empty book and "
+        "cancels of live and dead orders (also through an equal-valued copy of the order), matching round, running switch) up to the stated depth from the empty book and "
         "from each seed book, in continuous and in batch mode, executed on a real Market; a per-order ledger fed with the implementation's own fills predicts resting volume, terminal volumes, book membership and the expiry step in every reached state; "
         "distinct = canonical market states")
 
@@ -119,6 +119,10 @@ def run(tier, seed):
     extra = [("empty", "free", 3 if tier == "quick" else 4, "quick_bad"), ("partial", "free", 2, "quick_bad"), ("expiring", "cont", 2, "quick_bad")]
     extra += [("empty", mode, 3 if tier == "quick" else 4, "jump") for mode in ("cont", "free")]
     extra += [(sd, "free", 2 if tier == "quick" else 3, "jump") for sd in ("expiring", "same_expiry", "mixed_ttl")]
+    # "copycancel": cancels that wrap an equal-valued copy of the resting order instead of the object itself
+    alph["copycancel"] = alphabet(vols=(1, 2), mvols=(1,), ttls=(None, 1), mttls=(None,), cancels=0, dead=()) + [("CC", 0), ("CC", 1), ("CC", 2)]
+    extra += [("empty", mode, 3 if tier == "quick" else 4, "copycancel") for mode in ("cont", "free")]
+    extra += [(sd, "free", 2 if tier == "quick" else 3, "copycancel") for sd in ("two_sided_no_trade", "partial", "expiring")]
     res = run_generic("C04", tier, seed, factory, WIT + ["bad_op_rejected"], RULE, extra_alph=alph, extra_plan=extra)
     from ..enum_f import run_grid
     ev0, dn0 = res.coverage["evaluations"], res.coverage["distinct_nontrivial"]
@@ -134,7 +138,7 @@ def replay(payload):
     if payload.get("engine") == "R":
         from ._r import replay_r
         return replay_r(invalid_scenarios(), [acc_invalid_must_abort], on_exc_invalid, payload)
-    if payload.get("engine") == "F" and payload.get("grid") != "deep_one_sided_books":
+    if payload.get("engine") == "F" and payload.get("grid") not in ("deep_one_sided_books", "heap_layouts"):
         from ..common import Violation, Counter
         try:
             ctor_fn(tuple(payload["case"]), Counter())
